@@ -212,6 +212,40 @@ func runCliGate(p *Program, r *RuleResult) {
 				}
 			}
 		}
+		// drivers whose failure sink is a no-return call (exit status semantics): a normal return
+		// after a successful parse means "exit status 0", so it must have passed the typecheck gate
+		fatalSink := false
+		for _, e := range checkErrs {
+			for _, b := range view.Blocks() {
+				if view.holdsAt(b, e, factNonNil) && view.Exit(b) == ExitPanic {
+					fatalSink = true
+				}
+			}
+		}
+		if fatalSink && len(parseErrs) > 0 && len(checkErrs) > 0 {
+			res := resDefault
+			if hasTCFlags {
+				res = resReq
+			}
+			n := 0
+			for _, b := range view.Blocks() {
+				ins := view.Instrs(b)
+				ret, ok := ins[len(ins)-1].(*ssa.Return)
+				if !ok || !res.ExecBlks[b] {
+					continue
+				}
+				if !execMustPassEdge(view, res, ret, nilEdge(parseErrs)) {
+					continue // returns before/without parsing (other modes of the driver)
+				}
+				n++
+				construct := fmt.Sprintf("success-exit-typechecked#%d", n)
+				if execMustPassEdge(view, res, ret, nilEdge(checkErrs)) {
+					r.add(name, construct, Holds, p.instrPos(ret), "")
+				} else {
+					r.add(name, construct, Violated, p.instrPos(ret), "the driver can return normally (exit status 0) after a successful parse without having passed the nil edge of Typecheck's error although typechecking is requested: an ill-typed file is then silently accepted")
+				}
+			}
+		}
 		// the error edges do not start anything: from the non-nil edge of a gate error no start call is reachable
 		for gi, e := range append(append([]ssa.Value{}, parseErrs...), checkErrs...) {
 			kind := "parse"
